@@ -41,9 +41,7 @@ from vgi_rpc.rpc._common import (
     MethodNotImplementedError,
     MethodType,
     ProtocolVersionError,
-    RpcError,
     TransportKind,
-    VersionError,
     _access_logger,
     _current_access_sink,
     _current_call_stats,
@@ -75,11 +73,12 @@ from vgi_rpc.rpc._types import (
 from vgi_rpc.rpc._wire import (
     _ClientLogSink,
     _coerce_input_batch,
+    _decode_request,
     _deserialize_params,
     _drain_stream,
     _flush_collector,
     _MissingMethodError,
-    _read_request,
+    _read_request_batch,
     _validate_call_signature,
     _validate_params,
     _validate_result,
@@ -416,7 +415,17 @@ def _maybe_attach_shm(
     except (ValueError, UnicodeDecodeError):
         _logger.warning("Ignoring malformed SHM metadata: name=%r, size=%r", shm_name_bytes, shm_size_bytes)
         return None
-    return ShmSegment.attach(shm_name, shm_size, track=False)
+    try:
+        return ShmSegment.attach(shm_name, shm_size, track=False)
+    except Exception:
+        # The name and size are caller-supplied: a segment that does not
+        # exist, is not one of ours (bad magic / version / size) or cannot be
+        # mapped is a caller error like malformed metadata above, not a
+        # reason to take the connection down.  Without a segment the call is
+        # served inline; a pointer request that needed it is refused by
+        # ``_decode_request``.
+        _logger.warning("Ignoring SHM segment that cannot be attached: name=%r, size=%r", shm_name, shm_size)
+        return None
 
 
 class _ConnectionState:
@@ -895,13 +904,7 @@ class RpcServer:
                 # the segment named in this request's own metadata.
                 static_shm = transport.shm if isinstance(transport, ShmPipeTransport) else None
                 cached_shm = shm_cache.segment if shm_cache is not None else None
-                method_name, kwargs = _read_request(
-                    transport.reader,
-                    self._ipc_validation,
-                    self._external_config,
-                    shm=static_shm or cached_shm,
-                    attach_shm=lambda md: _maybe_attach_shm(md, self._transport_kind),
-                )
+                request_batch, request_md = _read_request_batch(transport.reader, self._ipc_validation)
             except StopIteration:
                 if stray_input_possible:
                     # Empty input stream (close() before the first tick) of a
@@ -912,7 +915,21 @@ class RpcServer:
                 with contextlib.suppress(BrokenPipeError, OSError):
                     _write_error_stream(transport.writer, _EMPTY_SCHEMA, exc, server_id=self._server_id)
                 raise
-            except (VersionError, RpcError) as exc:
+            # The request stream has been read to its end, so from here on the
+            # connection is at a stream boundary and every failure can be
+            # answered.  Decoding works on caller-supplied metadata (method
+            # name, trace context, external-location and shared-memory
+            # pointers): whatever it raises is reported as an error stream,
+            # never allowed to escape and end the serve loop without a reply.
+            try:
+                method_name, kwargs = _decode_request(
+                    request_batch,
+                    request_md,
+                    self._external_config,
+                    shm=static_shm or cached_shm,
+                    attach_shm=lambda md: _maybe_attach_shm(md, self._transport_kind),
+                )
+            except Exception as exc:
                 if stray_input_possible and isinstance(exc, _MissingMethodError):
                     # Input stream of a stream call that was rejected before
                     # its stream opened; it answers no call.
